@@ -147,3 +147,79 @@ M("C06", "twin-two-handlers", "job.py", "            except (TimeoutError, Runti
   "            except TimeoutError as e:\n                self.problem.failed.append(Individual(individual.vector))\n                individual.vector = VectorAndNumbers.gen_vector(self.problem.parameters)\n                individual.state = individual.State.EMPTY\n                continue\n            except RuntimeError as e:\n                self.problem.failed.append(Individual(individual.vector))\n                individual.vector = VectorAndNumbers.gen_vector(self.problem.parameters)\n                individual.state = individual.State.EMPTY\n                continue\n", "H")
 M("C06", "twin-no-bare", "job.py", "            except:\n                print(\"Job: unexpected error:\", sys.exc_info()[0])\n                raise\n", "", "H")
 M("C06", "twin-const-bound", "job.py", "for i in range(5):", "for attempt in range(0, 5):", "H")
+M("C06", "twin-while-counter", "job.py", "        for i in range(5):\n", "        attempt = 0\n        while attempt < 5:\n            attempt += 1\n", "H")
+M("C06", "shared-counter", "job.py", "        for i in range(5):\n", "        self.attempt = 0\n        while self.attempt < 5:\n            self.attempt += 1\n")
+M("C06", "while-counter-6", "job.py", "        for i in range(5):\n", "        attempt = 0\n        while attempt <= 5:\n            attempt += 1\n")
+M("C19", "train-after-prediction", "surrogate.py", "            if values is not None:\n                # count prediction\n                self.problem.surrogate.predict_counter += 1\n", "            if values is not None:\n                # count prediction\n                self.problem.surrogate.predict_counter += 1\n                self.train()\n")
+M("C20", "isclose-relative", "individual.py", EQ, "        for a, b in zip(self.vector, other.vector):\n            if not math.isclose(a, b, abs_tol=1e-10):\n                return False\n        return True\n")
+M("C20", "twin-isclose-absolute", "individual.py", EQ, "        for a, b in zip(self.vector, other.vector):\n            if not math.isclose(a, b, rel_tol=0.0, abs_tol=1e-10):\n                return False\n        return True\n", "H")
+M("C14", "wc-clipped-neighbour", "operators.py", "                vector[i] += sign * parameter['tol']\n", "                vector[i] = self.clip(vector[i] + sign * parameter['tol'], parameter['bounds'][0], parameter['bounds'][1])\n")
+
+# ---------------------------------------------------------------- C01
+P_LOOP = """        for (p_costs, q_costs) in zip(p[:-1], q[:-1]):
+            if p_costs > q_costs:
+                dominate_q = True
+                if dominate_p:
+                    return 0
+            elif q_costs > p_costs:
+                dominate_p = True
+                if dominate_q:
+                    return 0
+
+        if dominate_q == dominate_p:
+            return 0
+        elif dominate_p:
+            return 1
+        else:
+            return 2
+"""
+M("C01", "pareto-flipped-gt", "operators.py", "            if p_costs > q_costs:\n                dominate_q = True\n                if dominate_p:\n                    return 0\n            elif q_costs > p_costs:", "            if p_costs < q_costs:\n                dominate_q = True\n                if dominate_p:\n                    return 0\n            elif q_costs > p_costs:")
+M("C01", "pareto-ge", "operators.py", "            if p_costs > q_costs:\n                dominate_q = True\n                if dominate_p:\n                    return 0\n            elif q_costs > p_costs:", "            if p_costs >= q_costs:\n                dominate_q = True\n                if dominate_p:\n                    return 0\n            elif q_costs > p_costs:")
+M("C01", "pareto-swapped-returns", "operators.py", "        if dominate_q == dominate_p:\n            return 0\n        elif dominate_p:\n            return 1\n        else:\n            return 2\n", "        if dominate_q == dominate_p:\n            return 0\n        elif dominate_p:\n            return 2\n        else:\n            return 1\n")
+M("C01", "pareto-crossed-flags", "operators.py", "            elif q_costs > p_costs:\n                dominate_p = True\n                if dominate_q:\n                    return 0\n\n        if dominate_q == dominate_p:", "            elif q_costs > p_costs:\n                dominate_q = True\n                if dominate_q:\n                    return 0\n\n        if dominate_q == dominate_p:")
+M("C01", "pareto-early-return-wrong", "operators.py", "                dominate_p = True\n                if dominate_q:\n                    return 0\n\n        if dominate_q == dominate_p:", "                dominate_p = True\n                if dominate_q:\n                    return 1\n\n        if dominate_q == dominate_p:")
+M("C01", "pareto-skip-last-objective", "operators.py", "        for (p_costs, q_costs) in zip(p[:-1], q[:-1]):\n            if p_costs > q_costs:", "        for (p_costs, q_costs) in zip(p[:-2], q[:-2]):\n            if p_costs > q_costs:")
+M("C01", "pareto-skip-first-objective", "operators.py", "        for (p_costs, q_costs) in zip(p[:-1], q[:-1]):\n            if p_costs > q_costs:", "        for (p_costs, q_costs) in zip(p[1:-1], q[1:-1]):\n            if p_costs > q_costs:")
+M("C01", "pareto-cascade-prefers-nonzero", "operators.py", "        if p[-1] != q[-1]:\n            if p[-1] == 0:\n                return 1  # p dominates\n            elif q[-1] == 0:\n                return 2  # q is dominates, because it has smaller degree in constraint violation\n            elif abs(p[-1]) < abs(q[-1]):\n                return 1  # p is dominates\n            elif abs(q[-1]) < abs(p[-1]):\n                return 2  # q is dominates\n\n        dominate_p = False\n        dominate_q = False\n\n        for (p_costs",
+  "        if p[-1] != q[-1]:\n            if p[-1] == 0:\n                return 2  # p dominates\n            elif q[-1] == 0:\n                return 1\n            elif abs(p[-1]) < abs(q[-1]):\n                return 1  # p is dominates\n            elif abs(q[-1]) < abs(p[-1]):\n                return 2  # q is dominates\n\n        dominate_p = False\n        dominate_q = False\n\n        for (p_costs")
+M("C01", "pareto-cascade-bigger-wins", "operators.py", "            elif abs(p[-1]) < abs(q[-1]):\n                return 1  # p is dominates\n            elif abs(q[-1]) < abs(p[-1]):\n                return 2  # q is dominates\n\n        dominate_p = False\n        dominate_q = False\n\n        for (p_costs", "            elif abs(p[-1]) > abs(q[-1]):\n                return 1  # p is dominates\n            elif abs(q[-1]) > abs(p[-1]):\n                return 2  # q is dominates\n\n        dominate_p = False\n        dominate_q = False\n\n        for (p_costs")
+M("C01", "pareto-no-cascade", "operators.py", "        if p[-1] != q[-1]:\n            if p[-1] == 0:\n                return 1  # p dominates\n            elif q[-1] == 0:\n                return 2  # q is dominates, because it has smaller degree in constraint violation\n            elif abs(p[-1]) < abs(q[-1]):\n                return 1  # p is dominates\n            elif abs(q[-1]) < abs(p[-1]):\n                return 2  # q is dominates\n\n        dominate_p = False\n        dominate_q = False\n\n        for (p_costs", "        dominate_p = False\n        dominate_q = False\n\n        for (p_costs")
+M("C01", "eps-floor", "operators.py", "            p_eps = p_costs / epsilon\n            q_eps = q_costs / epsilon\n", "            p_eps = math.floor(p_costs / epsilon)\n            q_eps = math.floor(q_costs / epsilon)\n")
+M("C01", "eps-negated-scale", "operators.py", "            p_eps = p_costs / epsilon\n            q_eps = q_costs / epsilon\n", "            p_eps = p_costs / -epsilon\n            q_eps = q_costs / -epsilon\n")
+M("C01", "eps-one-side-unscaled", "operators.py", "            p_eps = p_costs / epsilon\n            q_eps = q_costs / epsilon\n", "            p_eps = p_costs / epsilon\n            q_eps = q_costs\n")
+M("C01", "eps-tiebreak-zero", "operators.py", "            if dist1 < dist2:\n                return 1\n            else:\n                return 2\n", "            if dist1 < dist2:\n                return 1\n            elif dist2 < dist1:\n                return 2\n            else:\n                return 0\n")
+M("C01", "eps-swapped-final", "operators.py", "        elif dominate_p:\n            return 1\n        else:\n            return 2\n\n    def same_box", "        elif dominate_p:\n            return 2\n        else:\n            return 1\n\n    def same_box")
+M("C01", "eps-flipped-gt", "operators.py", "            if p_eps > q_eps:\n                dominate_q = True", "            if p_eps < q_eps:\n                dominate_q = True")
+M("C01", "eps-shared-cycle", "operators.py", "        for i, (p_costs, q_costs) in enumerate(zip(p[:-1], q[:-1])):\n\n            epsilon = float(self.epsilons[i % len(self.epsilons)])\n            if epsilon == 0:\n                epsilon = 1e-3\n\n            p_eps = p_costs / epsilon\n            q_eps = q_costs / epsilon\n",
+  "        epsilons = itertools.cycle([float(eps) if float(eps) != 0 else 1e-3 for eps in self.epsilons])\n        p_scaled = [p_costs / epsilon for p_costs, epsilon in zip(p[:-1], epsilons)]\n        q_scaled = [q_costs / epsilon for q_costs, epsilon in zip(q[:-1], epsilons)]\n        for p_eps, q_eps in zip(p_scaled, q_scaled):\n")
+# twins
+M("C01", "twin-no-early-return", "operators.py", P_LOOP, """        for (p_costs, q_costs) in zip(p[:-1], q[:-1]):
+            if p_costs > q_costs:
+                dominate_q = True
+            elif q_costs > p_costs:
+                dominate_p = True
+
+        if dominate_q == dominate_p:
+            return 0
+        elif dominate_p:
+            return 1
+        else:
+            return 2
+""", "H")
+M("C01", "twin-index-loop", "operators.py", P_LOOP, """        for k in range(len(p) - 1):
+            if p[k] > q[k]:
+                dominate_q = True
+                if dominate_p:
+                    return 0
+            elif p[k] < q[k]:
+                dominate_p = True
+                if dominate_q:
+                    return 0
+
+        if dominate_p and not dominate_q:
+            return 1
+        if dominate_q and not dominate_p:
+            return 2
+        return 0
+""", "H")
+M("C01", "twin-eps-mult", "operators.py", "            p_eps = p_costs / epsilon\n            q_eps = q_costs / epsilon\n", "            inv = 1.0 / epsilon\n            p_eps = p_costs * inv\n            q_eps = q_costs * inv\n", "H")
